@@ -351,7 +351,26 @@ def check(run, replay):
         # cross-check the Coq heap semantics against ASan/LSan
         k = 15 if quick else 60
         sample = run.rng.sample(range(len(progs)), k)
+        def returns_dangling(p_):
+            # the driver frees the returned pointer: not applicable when the function returns an already freed cell
+            env_, fresh_, freed_ = {"p": None, "q": None}, 0, set()
+            for st_ in p_:
+                if st_[0] == "m":
+                    fresh_ += 1
+                    env_[st_[1]] = fresh_
+                elif st_[0] == "a":
+                    env_[st_[1]] = env_["q" if st_[1] == "p" else "p"]
+                elif st_[0] == "n":
+                    env_[st_[1]] = None
+                elif st_[0] == "f" and env_[st_[1]] is not None:
+                    freed_.add(env_[st_[1]])
+                elif st_[0] == "r":
+                    return st_[1] != "-" and env_[st_[1]] in freed_
+            return False
         for i in sample:
+            if returns_dangling(progs[i]):
+                run.count("heap-semantics-vs-asan", None, bucket="skipped:returns-freed-pointer")
+                continue
             v = sem[i][0].decode()
             lines = render_leak(progs[i], "f")
             got = asan_run(work, lines, "free(f());", "x")
